@@ -10,7 +10,10 @@ package interp
 // the restatement is validated against MatchFile natively on every run.
 
 import (
+	"go/ast"
 	"go/build"
+	"go/parser"
+	"go/token"
 	"io"
 	"strconv"
 	"strings"
@@ -332,13 +335,21 @@ var (
 	vhNOpts    = 1 // space-separated options
 	vhNTags    = 1 // comma-separated tags per option
 	vhGapAt    = -1 // option index after which the separator is two spaces (-1: never)
+	vhTagKind  = -1 // >= 0: every tag of the line is of this kind (the driver splits the work), -1: any mix
 )
 
 // vhTagWord: a generic word that is not of the form go1.*, or "go1." followed
 // by up to two digits (possibly none, possibly with a leading zero), or "go1."
 // followed by non-digit junk, or a malformed word (containing '-', '=' or '/').
 func vhTagWord() string {
-	switch vConcretizeInt(vNondetInt("tagkind"), 0, 3) {
+	if vhHdrSimple == 1 {
+		return vNondetWordN("t", vhTagWordChars, 1, 8)
+	}
+	kind := vhTagKind
+	if kind < 0 {
+		kind = vConcretizeInt(vNondetInt("tagkind"), 0, 3)
+	}
+	switch kind {
 	case 3:
 		// a malformed tag: some byte is not a letter, digit, '_' or '.'
 		w := vNondetWord("bad", "ab_-=/", 4)
@@ -412,14 +423,222 @@ func vh_C17_line() {
 	}
 }
 
+// ---------------------------------------------------------------------
+// constraint header: an optional //go:build line followed by 0..2 +build
+// lines in one comment group, a blank line, the package clause.
+//
+// buildOk is the real code. Symbolically the parser step is replaced by
+// vmParseFile (the comment list the real parser returns for this header
+// shape) and CommentGroup.Text by vmCommentText; both are compared with the
+// real go/parser natively in TestVerifValidateC17. go/build/constraint is
+// modelled in the engine (tokenizer, precedence, evaluation of every tag).
+
+var (
+	vhHasGoBuild = 1 // 1: a //go:build line heads the group
+	vhExprShape  = 0 // see vhShapedExpr
+	vhNPlusLines = 0 // +build lines after it (or alone)
+	vhDocGroup   = 0 // 1: a further plain comment group precedes the header
+	vhHdrSimple  = 0 // 1: tags are plain words (structure obligations: tag matching is an uninterpreted predicate)
+)
+
+// vmMatchPred stands for "the build context satisfies this tag" in the
+// structure obligations: the real matchBuildTag and the restated rule
+// vmMatchTag are both redirected to it (their agreement is the tag-level
+// obligation).
+func vmMatchPred(ctx *build.Context, name string) bool { return vPred("tagok", name) }
+
+var (
+	vhHdrTags     [3]string
+	vhHdrComments []*ast.CommentGroup
+)
+
+// vhHeaderTag: a well-formed tag (go:build syntax rejects malformed words).
+func vhHeaderTag() string {
+	if vhHdrSimple == 1 {
+		return vNondetWordN("t", vhTagWordChars, 1, 8)
+	}
+	switch vConcretizeInt(vNondetInt("tagkind"), 0, 2) {
+	case 1:
+		return "go1." + vNondetWord("rel", "0123456789", 2)
+	case 2:
+		return "go1." + vNondetWord("junk", "abcdefghijklmnopqrstuvwxyz_.", 2)
+	}
+	t := vNondetWordN("t", vhTagWordChars, 1, 8)
+	vAssume(!vHasPrefix(t, "go1."))
+	return t
+}
+
+// vhShapedExpr: the expression text and, in vhHdrTags, its tags.
+func vhShapedExpr() string {
+	a, b, c := vhHeaderTag(), "", ""
+	if vhExprShape >= 2 {
+		b = vhHeaderTag()
+	}
+	if vhExprShape >= 6 {
+		c = vhHeaderTag()
+	}
+	vhHdrTags = [3]string{a, b, c}
+	switch vhExprShape {
+	case 0:
+		return a
+	case 1:
+		return "!" + a
+	case 2:
+		return a + " && " + b
+	case 3:
+		return a + " || " + b
+	case 4:
+		return a + " && !" + b
+	case 5:
+		return "!(" + a + " || " + b + ")"
+	case 6:
+		return a + " || " + b + " && " + c
+	case 7:
+		return "(" + a + " || " + b + ") && " + c
+	case 8:
+		return a + " && " + b + " || !" + c
+	}
+	return a + "&&(" + b + "||!" + c + ")"
+}
+
+// vmExprEval: the truth value of the shape, restated.
+func vmExprEval(ctx *build.Context) bool {
+	a := vmMatchTag(ctx, vhHdrTags[0])
+	b, c := false, false
+	if vhExprShape >= 2 {
+		b = vmMatchTag(ctx, vhHdrTags[1])
+	}
+	if vhExprShape >= 6 {
+		c = vmMatchTag(ctx, vhHdrTags[2])
+	}
+	switch vhExprShape {
+	case 0:
+		return a
+	case 1:
+		return !a
+	case 2:
+		return vAnd(a, b)
+	case 3:
+		return vOr(a, b)
+	case 4:
+		return vAnd(a, !b)
+	case 5:
+		return !vOr(a, b)
+	case 6:
+		return vOr(a, vAnd(b, c))
+	case 7:
+		return vAnd(vOr(a, b), c)
+	case 8:
+		return vOr(vAnd(a, b), !c)
+	}
+	return vAnd(a, vOr(b, !c))
+}
+
+func vmHeaderMatch(ctx *build.Context, gobuild string, hasGoBuild bool, lines []string) bool {
+	if hasGoBuild {
+		return vmExprEval(ctx)
+	}
+	for _, l := range lines {
+		if !vmLineMatch(ctx, l) {
+			return false
+		}
+	}
+	return true
+}
+
+// vhHeaderSrc is the file text; vhHdrComments the comment list the parser
+// yields for it (one group: the lines are adjacent).
+func vhHeaderSrc(gobuild string, hasGoBuild bool, lines []string) string {
+	src := ""
+	vhHdrComments = nil
+	if vhDocGroup == 1 {
+		src = "// Copyright.\n\n"
+		vhHdrComments = append(vhHdrComments, &ast.CommentGroup{List: []*ast.Comment{{Text: "// Copyright."}}})
+	}
+	g := &ast.CommentGroup{}
+	if hasGoBuild {
+		src += "//go:build " + gobuild + "\n"
+		g.List = append(g.List, &ast.Comment{Text: "//go:build " + gobuild})
+	}
+	for _, l := range lines {
+		src += "// " + l + "\n"
+		g.List = append(g.List, &ast.Comment{Text: "// " + l})
+	}
+	if len(g.List) > 0 {
+		vhHdrComments = append(vhHdrComments, g)
+	}
+	return src + "\npackage x\n"
+}
+
+func vmParseFile(fset *token.FileSet, filename string, src any, mode parser.Mode) (*ast.File, error) {
+	return &ast.File{Comments: vhHdrComments}, nil
+}
+
+// vmCommentText restates (*ast.CommentGroup).Text for //-style comments whose
+// lines carry no trailing blanks: directives are dropped, the marker and one
+// following space removed, lines joined with "\n".
+func vmCommentText(g *ast.CommentGroup) string {
+	if g == nil {
+		return ""
+	}
+	r := ""
+	for _, c := range g.List {
+		t := c.Text
+		if strings.HasPrefix(t, "//go:") || strings.HasPrefix(t, "//line ") || strings.HasPrefix(t, "//extern ") || strings.HasPrefix(t, "//export ") {
+			continue
+		}
+		t = t[2:]
+		if t != "" && t[0] == ' ' {
+			t = t[1:]
+		}
+		r += t + "\n"
+	}
+	return r
+}
+
+func vh_C17_header() {
+	ctx := vhCtx(1)
+	gobuild := ""
+	if vhHasGoBuild == 1 {
+		gobuild = vhShapedExpr()
+	}
+	var lines []string
+	for i := 0; i < vhNPlusLines; i++ {
+		lines = append(lines, vhShapedLine())
+	}
+	src := vhHeaderSrc(gobuild, vhHasGoBuild == 1, lines)
+	if vhHdrSimple == 1 && !vSymbolic() {
+		// replay of a structure counterexample: realise the predicate's
+		// interpretation through the custom build tags
+		ctx.BuildTags = nil
+		words := strings.FieldsFunc(src+" ignore", func(c rune) bool { return !strings.ContainsRune(vhTagWordChars, c) })
+		for _, w := range words {
+			if vPred("tagok", w) {
+				ctx.BuildTags = append(ctx.BuildTags, w)
+			}
+		}
+	}
+	in := &Interpreter{}
+	in.fset = token.NewFileSet()
+	vReach("C17.header")
+	got, err := in.buildOk(ctx, "x.go", src)
+	vAssert("C17.header.no-error", err == nil)
+	if err == nil {
+		want := vhHeaderMatch(ctx, gobuild, vhHasGoBuild == 1, lines)
+		vAssert("C17.header", got == want)
+	}
+}
+
 var vhRegistry = map[string]func(){
-	"vh_C17_name": vh_C17_name,
-	"vh_C17_line": vh_C17_line,
+	"vh_C17_name":   vh_C17_name,
+	"vh_C17_line":   vh_C17_line,
+	"vh_C17_header": vh_C17_header,
 }
 
 var vhIntVars = map[string]*int{
 	"vhNParts": &vhNParts, "vhDotSeg": &vhDotSeg, "vhWordMax": &vhWordMax, "vhNoGo": &vhNoGo,
-	"vhLineKind": &vhLineKind, "vhNOpts": &vhNOpts, "vhNTags": &vhNTags, "vhGapAt": &vhGapAt,
+	"vhLineKind": &vhLineKind, "vhNOpts": &vhNOpts, "vhNTags": &vhNTags, "vhGapAt": &vhGapAt, "vhTagKind": &vhTagKind,
+	"vhHasGoBuild": &vhHasGoBuild, "vhExprShape": &vhExprShape, "vhNPlusLines": &vhNPlusLines, "vhDocGroup": &vhDocGroup, "vhHdrSimple": &vhHdrSimple,
 }
 
 var vhScenarios = map[string]func(map[string]string) bool{}
